@@ -143,6 +143,7 @@ CYCLES = {
     "spawn-err-pipe": "(bench (fn [] (def p (os/spawn [\"/bin/sh\" \"-c\" \"echo e 1>&2\"] :p {:err :pipe})) (ev/with-deadline 5 (ev/read (p :err) :all)) (os/proc-wait p) (os/proc-close p)))",
     "spawn-kill": "(bench (fn [] (def p (os/spawn [\"/bin/sleep\" \"30\"] :p)) (os/proc-kill p true)))",
     "spawn-dropped": "(bench (fn [] (os/spawn [\"/bin/true\"] :p) (ev/sleep 0.002) (gccollect)))",
+    "spawn-dropped-alive": "(bench (fn [] (os/spawn [\"/bin/sleep\" \"60\"] :p) (gccollect) (gccollect)))",
     "spawn-failed": "(bench (fn [] (try (os/spawn [\"/nonexistent-program-xyz\"] :p {:out :pipe :err :pipe :in :pipe}) ([e] nil))))",
     "channel-traffic": "(def ch (ev/chan 2)) (bench (fn [] (ev/spawn (ev/give ch @[1 2 3])) (ev/take ch)))",
     "thread-channel-traffic": "(def a (ev/thread-chan 4)) (def b (ev/thread-chan 4)) (ev/thread (fn [&] (forever (def m (ev/take a)) (when (= m :stop) (break)) (ev/give b m))) nil :n) (bench (fn [] (ev/give a @{:k [1 2 3]}) (ev/take b)))",
